@@ -1,6 +1,13 @@
 package main
 
-import "golang.org/x/tools/go/ssa"
+import (
+	"fmt"
+	"go/token"
+	"go/types"
+	"strings"
+
+	"golang.org/x/tools/go/ssa"
+)
 
 func init() { register("C20", checkC20) }
 
@@ -20,9 +27,32 @@ var c20Vetted = map[string]string{
 	"quo @ x/cfevesting/keeper.Keeper.UnlockUnbondedContinuousVestingAccountCoins : sdk/types.Dec.Quo":           "divisor = still-vesting amount of the denomination; under coin.Amount > 0 and amount <= locked <= vesting it is positive",
 }
 
+// Vetted non-local nil guards (C20.nilfield), closed table.
+var c20VettedNil = map[string]string{
+	"*time.Time @ x/cfeminter/types.Params.validateMintersEndTimeValue : dereference":                        "EndTime of a non-last period: validateEndTimeExistance, called just before in the same loop iteration, returns an error when EndTime is nil and the position is below lastPos; both dereferencing branches require position < lastPos",
+	"*x/cfedistributor/types.Account @ x/cfedistributor/types.getId : field .Id":                              "accounts reach the ordering validation only after SubDistributor.Validate / Destinations.Validate ran over every sub-distributor (first loop of validateSubDistributors) and rejected nil sources",
+	"*x/cfedistributor/types.Account @ x/cfedistributor/types.getId : field .Type":                            "same argument",
+	"*x/cfedistributor/types.Account @ x/cfedistributor/types.setOccurrence : field .Type":                    "same argument",
+	"*x/cfedistributor/types.DestinationShare @ x/cfedistributor/types.validateDestinationsShares : field .Destination": "shares were nil-checked by Destinations.Validate for every sub-distributor before ValidateSubDistributors runs",
+	"*x/cfedistributor/types.DestinationShare @ x/cfedistributor/types.validateDestinationsShares : field .Name":        "same argument",
+	"sdk/types.Dec @ x/cfedistributor/types.Destinations.CheckIfSharesSumIsBetween0And1 : argument of Add (possibly-nil Int/Dec)": "argument share.Share: each share passed DestinationShare.validate (which rejects a nil Share) in the loop of Destinations.Validate that precedes this call",
+}
+
+var nilableResultAPIs = []string{"AccountKeeper.GetAccount", "AccountI.GetPubKey", "encoding/pem.Decode", "AccountKeeper.GetModuleAccount"}
+
 func checkC20(w *World, r *Report) {
 	ro := w.Roles()
+	cg := w.CG()
+	r.Undecided = []string{
+		"panics inside the SDK / standard library on arguments that satisfy their documented preconditions (trusted)",
+		"resource exhaustion (unbounded JSON, very long slices)",
+		"the numeric facts behind the vetted sites of the vesting split arithmetic (C07)",
+	}
 	r.Rule("C20.inventory", "P4,P5,P9", "every panic-capable operation reachable from a message handler, ValidateBasic or query handler is discharged (g1..g5)", 60)
+	r.Rule("C20.nilfield", "P5", "nil-able components of messages (pointer fields, elements of pointer slices, math.Int / sdk.Dec fields) are dereferenced or used with a non-nil-safe method only under a nil test of the same access path, a rejecting validation call, or a preceding element-checking loop, inside the handler's own tree and inside ValidateBasic", 20)
+	r.Rule("C20.nilresult", "P5", "results of the nilable-result API table (GetAccount, GetPubKey, pem.Decode, GetModuleAccount) are tested before being dereferenced or invoked", 6)
+	r.Rule("C20.nilness", "P5", "the x/tools nilness analysis, run on the same SSA, reports no provable nil dereference in production scope", 1)
+	r.Rule("C20.signers", "P8", "for every message type, each field parsed by GetSigners is validated as a bech32 address in ValidateBasic", 17)
 	if !ro.checkFloors(r) {
 		return
 	}
@@ -30,4 +60,259 @@ func checkC20(w *World, r *Report) {
 	roots := append(append(append([]*ssa.Function{}, flatten(ro.MSG)...), flatten(ro.VB)...), flatten(ro.QRY)...)
 	iv.Run(roots, "MSG+VB+QRY")
 	iv.Finish()
+
+	// ---------- C20.nilfield ----------
+	nsinks, nderived := 0, 0
+	seenKey := map[string]int{}
+	for _, m := range customModules {
+		for _, h := range ro.MSG[m] {
+			mp := msgParam(h)
+			if mp == nil {
+				continue
+			}
+			T, _ := mp.Type().Underlying().(*types.Pointer).Elem().(*types.Named)
+			if T == nil {
+				continue
+			}
+			vb := w.methodOf(T, "ValidateBasic")
+			tname := m + "." + T.Obj().Name()
+			troots := map[ssa.Value]string{mp: tname}
+			var vbReach map[*ssa.Function]*ssa.Function
+			if vb != nil && vb.Blocks != nil && len(vb.Params) > 0 {
+				troots[vb.Params[0]] = tname
+				vbReach = cg.Reach([]*ssa.Function{vb})
+			}
+			ts := w.runNilTaint(troots)
+			rejected := ts.vbRejectedLabels(vbReach)
+			nderived += len(ts.info)
+			for _, sk := range ts.sinks() {
+				nsinks++
+				key := tname + ": " + sk.key()
+				seenKey[key]++
+				if n := seenKey[key]; n > 1 {
+					key = fmt.Sprintf("%s #%d", key, n)
+				}
+				pos := w.Pos(sk.instr.Pos())
+				if !sk.instr.Pos().IsValid() {
+					pos = w.Pos(sk.v.Pos())
+				}
+				ok, how := w.guardedSink(sk, ts, 0)
+				if ok {
+					r.OK("C20.nilfield", key, pos, how)
+					continue
+				}
+				// g6: ValidateBasic of this message type rejects the message when the component is nil
+				if _, inVB := vbReach[sk.fn]; !inVB && len(sk.labels) > 0 {
+					all := true
+					for _, l := range sk.labels {
+						if !rejected[l] {
+							all = false
+						}
+					}
+					if all {
+						r.OK("C20.nilfield", key, pos, fmt.Sprintf("ValidateBasic of %s returns an error when %v is nil (it runs before the handler)", tname, sk.labels))
+						continue
+					}
+				}
+				if why, ok := c20VettedNil[sk.key()]; ok {
+					r.Assume("C20.nilfield", key, pos, "vetted: "+why)
+					continue
+				}
+				r.Bad("C20.nilfield", key, pos, fmt.Sprintf("message component %v is nil when absent on the wire and is used without a nil test: %s", sk.labels, how))
+			}
+		}
+	}
+	r.Analysed["niltaint"] = map[string]int{"derived_values": nderived, "sinks": nsinks}
+
+	// ---------- C20.nilresult ----------
+	reach := cg.Reach(roots)
+	for _, s := range cg.SitesIn(reach) {
+		if !w.isProdFunc(s.Caller) {
+			continue
+		}
+		call := siteCall(s)
+		if call == nil {
+			continue
+		}
+		n := callName(call.Common())
+		if s.Invoke {
+			n = typeString(s.RecvType) + "." + s.Method
+		}
+		if !hasSuffixAny(n, nilableResultAPIs...) {
+			continue
+		}
+		var v ssa.Value = call
+		if tup, ok := call.Type().(*types.Tuple); ok && tup.Len() > 1 {
+			for _, ref := range *call.Referrers() {
+				if ex, ok := ref.(*ssa.Extract); ok && ex.Index == 0 {
+					v = ex
+				}
+			}
+		}
+		fn := s.Caller
+		construct := fmt.Sprintf("%s result in %s", s.Method, funcName(fn))
+		// constant module account registered in maccPerms: never nil
+		if s.Method == "GetModuleAccount" {
+			a := s.Args()
+			if names, ok := w.resolveStrings(a[len(a)-1], 3); ok {
+				all := len(names) > 0
+				for _, nm := range names {
+					if strings.HasPrefix(nm, "field:") {
+						if T := w.NamedType("x/cfedistributor/types.Account"); T != nil && strings.HasSuffix(nm, "Id") {
+							if ok2, _ := iv.fieldValidated(T, "Id", reqMacc); ok2 {
+								continue
+							}
+						}
+						all = false
+						continue
+					}
+					if _, in := iv.macc[nm]; !in {
+						all = false
+					}
+				}
+				if all {
+					r.OK("C20.nilresult", construct, w.Pos(s.Instr.Pos()), fmt.Sprintf("g3: module account %v is registered in maccPerms, the keeper creates it on demand", names))
+					continue
+				}
+			}
+		}
+		uses := 0
+		bad := 0
+		vals := map[ssa.Value]bool{v: true}
+		// follow phis / local spills one level
+		for _, ref := range *v.Referrers() {
+			if phi, ok := ref.(*ssa.Phi); ok {
+				vals[phi] = true
+			}
+		}
+		edges := NilEdges(fn, vals, false)
+		for x := range vals {
+			if x.Referrers() == nil {
+				continue
+			}
+			for _, ref := range *x.Referrers() {
+				in := ref.(ssa.Instruction)
+				deref := false
+				switch y := ref.(type) {
+				case ssa.CallInstruction:
+					cc := y.Common()
+					if cc.IsInvoke() && cc.Value == x {
+						deref = true
+					}
+					if !cc.IsInvoke() && cc.Signature().Recv() != nil && len(cc.Args) > 0 && cc.Args[0] == x {
+						deref = true
+					}
+				case *ssa.UnOp:
+					deref = y.Op == token.MUL && y.X == x
+				case *ssa.FieldAddr:
+					deref = y.X == x
+				case *ssa.TypeAssert:
+					deref = !y.CommaOk
+				}
+				if !deref {
+					continue
+				}
+				uses++
+				if !MustPass(fn, edges, in.Block()) {
+					bad++
+					r.Bad("C20.nilresult", construct, w.Pos(in.Pos()), s.Method+" may return nil and the result is used without a nil test")
+				}
+			}
+		}
+		if bad == 0 {
+			r.OK("C20.nilresult", construct, w.Pos(s.Instr.Pos()), fmt.Sprintf("%d dereferencing uses, all dominated by a non-nil test", uses))
+		}
+	}
+
+	// ---------- C20.nilness ----------
+	runNilness(w, r, "C20.nilness")
+
+	// ---------- C20.signers ----------
+	for _, m := range customModules {
+		for _, T := range ro.MsgTyp[m] {
+			signers := w.signerFields(T)
+			vb := w.methodOf(T, "ValidateBasic")
+			construct := m + "." + T.Obj().Name()
+			if len(signers) == 0 || vb == nil {
+				r.Bad("C20.signers", construct, w.Pos(T.Obj().Pos()), "GetSigners does not parse a message field with AccAddressFromBech32 (or ValidateBasic is missing)")
+				continue
+			}
+			for _, f := range signers {
+				ok, how := iv.guardRejectsBech32(vb, f, 0)
+				if !ok {
+					// compared with the governance authority (a valid bech32 string by construction, C13.gov)
+					edges := eqEdges(vb, func(v ssa.Value) bool { _, ff, okf := fieldOfValue(v); return okf && ff == f },
+						func(v ssa.Value) bool { _, is := isCallTo(v, "app/params.GetAuthority"); return is })
+					for _, e := range edges {
+						other := e.From.Succs[1-e.Succ]
+						if FailsFrom(other) {
+							ok, how = true, "compared with appparams.GetAuthority(); any other value is rejected"
+						}
+					}
+				}
+				r.Check(ok, "C20.signers", construct+"."+f, w.Pos(vb.Pos()), "ValidateBasic rejects a malformed address: "+how, "GetSigners parses "+f+" (and panics on a malformed value) but ValidateBasic does not validate it as a bech32 address")
+			}
+		}
+	}
+}
+
+// guardRejectsBech32: fn (or a module callee that receives the field) calls AccAddressFromBech32(field)
+// and fails on its error.
+func (iv *Inv) guardRejectsBech32(fn *ssa.Function, field string, depth int) (bool, string) {
+	cg := iv.w.CG()
+	var isField func(v ssa.Value) bool
+	isField = func(v ssa.Value) bool {
+		_, f, ok := fieldOfValue(v)
+		return ok && f == field
+	}
+	return iv.bech32Rejects(fn, isField, depth, cg)
+}
+
+func (iv *Inv) bech32Rejects(fn *ssa.Function, isField func(ssa.Value) bool, depth int, cg *CallGraph) (bool, string) {
+	for _, s := range cg.Sites[fn] {
+		call := siteCall(s)
+		if call == nil {
+			continue
+		}
+		if hasSuffixAny(callName(call.Common()), "types.AccAddressFromBech32") && isField(call.Common().Args[0]) {
+			ev := errValues(fn, call)
+			for _, e := range NilEdges(fn, ev, false) {
+				if FailsFrom(e.To()) {
+					return true, "in " + funcName(fn)
+				}
+			}
+			for _, ret := range Returns(fn) {
+				rv := retVals(ret)
+				if len(rv) > 0 && ev[rv[len(rv)-1]] {
+					return true, "in " + funcName(fn) + " (error returned)"
+				}
+			}
+		}
+		if depth >= 2 || len(s.Callees) != 1 || s.Invoke {
+			continue
+		}
+		callee := s.Callees[0]
+		for i, a := range s.Common().Args {
+			if i < len(callee.Params) && isField(a) {
+				p := callee.Params[i]
+				ok, how := iv.bech32Rejects(callee, func(v ssa.Value) bool { return v == ssa.Value(p) }, depth+1, cg)
+				if !ok {
+					continue
+				}
+				ev := errValues(fn, call)
+				for _, e := range NilEdges(fn, ev, false) {
+					if FailsFrom(e.To()) {
+						return true, how + " via " + funcName(fn)
+					}
+				}
+				for _, ret := range Returns(fn) {
+					rv := retVals(ret)
+					if len(rv) > 0 && ev[rv[len(rv)-1]] {
+						return true, how + " via " + funcName(fn)
+					}
+				}
+			}
+		}
+	}
+	return false, ""
 }
